@@ -31,7 +31,7 @@ pub fn gen(seed: u64) -> CCase {
         native_prefix,
         mode: *rng.pick(&[0u8, 0, 1, 1, 1, 2, 3]),
         sections: rng.range(1, 31) as u8,
-        muts: (0..n).map(|_| (rng.below(15) as u8, rng.below(14) as u8, rng.below(16) as u8)).collect(),
+        muts: (0..n).map(|_| (rng.below(17) as u8, rng.below(14) as u8, rng.below(16) as u8)).collect(),
         with_oracle: rng.chance(3, 4),
         with_treasury: rng.chance(1, 2),
     }
@@ -219,7 +219,7 @@ fn apply_muts(c: &CCase, p: &mut Parts) -> bool {
             }
             false
         };
-        changed |= match field % 15 {
+        changed |= match field % 17 {
             0 => {
                 p.native["account_address_prefix"] = json!(if kind % 2 == 0 { BAD_PREFIX[arg as usize % BAD_PREFIX.len()].to_string() } else { mutate(&np, kind, arg, "x") });
                 true
@@ -292,8 +292,17 @@ fn apply_muts(c: &CCase, p: &mut Parts) -> bool {
                 p.monitors = json!(b);
                 true
             }
-            _ => {
+            14 => {
                 p.subdenom = BAD_DENOM[arg as usize % BAD_DENOM.len()].to_string();
+                true
+            }
+            15 => {
+                // periods are plain numbers: every value is well-formed, none may crash the contract
+                p.batch_period = [u64::MAX, u64::MAX - 1_700_000_000, 0, u64::MAX / 2][arg as usize % 4];
+                true
+            }
+            _ => {
+                p.native["unbonding_period"] = json!([u64::MAX, u64::MAX - 1_700_000_000, 0][arg as usize % 3]);
                 true
             }
         };
@@ -336,21 +345,21 @@ pub fn eval(c: &CCase) -> Eval {
             match get_cfg(&mut w) {
                 Some(cfg) => {
                     if let Err(e) = well_formed(&cfg, true, true, true, true) {
-                        viol.push(Violation { prop: "C14", clause: "accepted_config_is_well_formed", step: 1, msg: format!("instantiate accepted an ill-formed configuration ({}): {}", e, cfg) });
+                        viol.push(Violation { stop: true, prop: "C14", clause: "accepted_config_is_well_formed", step: 1, msg: format!("instantiate accepted an ill-formed configuration ({}): {}", e, cfg) });
                     }
                     let lst = cfg["liquid_stake_token_denom"].as_str().unwrap_or("");
                     let sub = lst.rsplit('/').next().unwrap_or("");
                     if sub.is_empty() || !sub.chars().all(|c| c.is_ascii_alphabetic()) || lst != format!("factory/{}/{}", s_addr, sub) {
-                        viol.push(Violation { prop: "C14", clause: "accepted_config_is_well_formed", step: 1, msg: format!("LST denom {:?}", lst) });
+                        viol.push(Violation { stop: true, prop: "C14", clause: "accepted_config_is_well_formed", step: 1, msg: format!("LST denom {:?}", lst) });
                     }
                     if corrupted {
                         ev.stats.probe("corrupted_instantiate_accepted_but_well_formed");
                     }
                 }
-                None => viol.push(Violation { prop: "C16", clause: "queries_fail", step: 1, msg: "Config query failed after instantiate".into() }),
+                None => viol.push(Violation { stop: true, prop: "C16", clause: "queries_fail", step: 1, msg: "Config query failed after instantiate".into() }),
             }
         } else if !corrupted && !r.panicked {
-            viol.push(Violation { prop: "HARNESS", clause: "valid_config_refused", step: 1, msg: format!("uncorrupted instantiate refused: {}", r.err) });
+            viol.push(Violation { stop: true, prop: "HARNESS", clause: "valid_config_refused", step: 1, msg: format!("uncorrupted instantiate refused: {}", r.err) });
         } else {
             ev.stats.probe("corrupted_instantiate_refused");
         }
@@ -359,7 +368,7 @@ pub fn eval(c: &CCase) -> Eval {
         let base = base_parts(c, 0);
         let r = w.tx_instantiate(Which::Staking, &admin, &inst(&base));
         if !r.ok {
-            viol.push(Violation { prop: "HARNESS", clause: "valid_config_refused", step: 0, msg: format!("base instantiate refused: {}", r.err) });
+            viol.push(Violation { stop: true, prop: "HARNESS", clause: "valid_config_refused", step: 0, msg: format!("base instantiate refused: {}", r.err) });
         } else if c.mode == 1 {
             let mut p = base_parts(c, 1);
             let corrupted = apply_muts(c, &mut p);
@@ -380,19 +389,19 @@ pub fn eval(c: &CCase) -> Eval {
                 ev.stats.tx_ok += 1;
                 let after = raw_cfg(&w);
                 if let Err(e) = well_formed(&after, sn, sp, sf, sm) {
-                    viol.push(Violation { prop: "C14", clause: "accepted_config_is_well_formed", step: 1, msg: format!("UpdateConfig accepted an ill-formed section ({}): {}", e, msg) });
+                    viol.push(Violation { stop: true, prop: "C14", clause: "accepted_config_is_well_formed", step: 1, msg: format!("UpdateConfig accepted an ill-formed section ({}): {}", e, msg) });
                 }
                 for (name, supplied) in [("native_chain_config", sn), ("protocol_chain_config", sp), ("protocol_fee_config", sf), ("monitors", sm), ("batch_period", sb)] {
                     if !supplied && before[name] != after[name] {
-                        viol.push(Violation { prop: "C14", clause: "update_is_sectional", step: 1, msg: format!("section {} not supplied but changed from {} to {}", name, before[name], after[name]) });
+                        viol.push(Violation { stop: true, prop: "C14", clause: "update_is_sectional", step: 1, msg: format!("section {} not supplied but changed from {} to {}", name, before[name], after[name]) });
                     }
                 }
                 if before["liquid_stake_token_denom"] != after["liquid_stake_token_denom"] || before["stopped"] != after["stopped"] {
-                    viol.push(Violation { prop: "C14", clause: "update_never_touches_denom_or_flag", step: 1, msg: format!("LST denom / stopped changed: {} -> {}", before, after) });
+                    viol.push(Violation { stop: true, prop: "C14", clause: "update_never_touches_denom_or_flag", step: 1, msg: format!("LST denom / stopped changed: {} -> {}", before, after) });
                 }
                 for (k, v) in &w.st.staking.map {
                     if k != b"config" && store_before.get(k) != Some(v) {
-                        viol.push(Violation { prop: "C14", clause: "update_is_sectional", step: 1, msg: format!("UpdateConfig changed record {:?}", String::from_utf8_lossy(k)) });
+                        viol.push(Violation { stop: true, prop: "C14", clause: "update_is_sectional", step: 1, msg: format!("UpdateConfig changed record {:?}", String::from_utf8_lossy(k)) });
                     }
                 }
                 if corrupted {
@@ -400,10 +409,10 @@ pub fn eval(c: &CCase) -> Eval {
                 }
             } else {
                 if w.st.staking.map != store_before {
-                    viol.push(Violation { prop: "C14", clause: "refused_update_changes_nothing", step: 1, msg: "refused UpdateConfig changed storage".into() });
+                    viol.push(Violation { stop: true, prop: "C14", clause: "refused_update_changes_nothing", step: 1, msg: "refused UpdateConfig changed storage".into() });
                 }
                 if !corrupted && !r.panicked {
-                    viol.push(Violation { prop: "HARNESS", clause: "valid_config_refused", step: 1, msg: format!("uncorrupted update refused: {}", r.err) });
+                    viol.push(Violation { stop: true, prop: "HARNESS", clause: "valid_config_refused", step: 1, msg: format!("uncorrupted update refused: {}", r.err) });
                 }
                 ev.stats.probe("corrupted_update_refused");
             }
@@ -438,14 +447,14 @@ pub fn eval(c: &CCase) -> Eval {
                     wf && present
                 };
                 if !ok {
-                    viol.push(Violation { prop: "C14", clause: "validator_edit_validates", step: 1, msg: format!("{} accepted with old list {:?}", msg, old) });
+                    viol.push(Violation { stop: true, prop: "C14", clause: "validator_edit_validates", step: 1, msg: format!("{} accepted with old list {:?}", msg, old) });
                 } else if new != expect {
-                    viol.push(Violation { prop: "C14", clause: "validator_edit_exact", step: 1, msg: format!("{} turned {:?} into {:?}", msg, old, new) });
+                    viol.push(Violation { stop: true, prop: "C14", clause: "validator_edit_exact", step: 1, msg: format!("{} turned {:?} into {:?}", msg, old, new) });
                 }
                 let mut a2 = after.clone();
                 a2["native_chain_config"]["validators"] = before["native_chain_config"]["validators"].clone();
                 if a2 != before {
-                    viol.push(Violation { prop: "C14", clause: "validator_edit_exact", step: 1, msg: "validator edit changed other configuration".into() });
+                    viol.push(Violation { stop: true, prop: "C14", clause: "validator_edit_exact", step: 1, msg: "validator edit changed other configuration".into() });
                 }
             }
             h.u64(r.ok as u64);
@@ -453,7 +462,7 @@ pub fn eval(c: &CCase) -> Eval {
         }
     }
     for p in &w.panics {
-        viol.push(Violation { prop: "C16", clause: "panic", step: 1, msg: format!("{}::{} panicked: {} | input: {}", p.contract, p.entry, p.msg, p.input) });
+        viol.push(Violation { stop: true, prop: "C16", clause: "panic", step: 1, msg: format!("{}::{} panicked: {} | input: {}", p.contract, p.entry, p.msg, p.input) });
     }
     for m in &c.muts {
         h.u64(m.0 as u64 * 10000 + m.1 as u64 * 100 + m.2 as u64);
